@@ -51,7 +51,7 @@ theorem createFvElems_err (base abs size : Nat) (e : Err) : ∀ (es N : List Bio
     | pad p o =>
       rw [createFvElems] at h
       split at h
-      · cases h
+      · split at h <;> cases h
       · split at h
         · cases h
         · rename_i N' hN'; exact ih N' hN'
